@@ -8,11 +8,11 @@
     names with arbitrary argument counts.
   * `RawExpr`   — a Go `ast.IsNode` value as a consumer receives it: `nil` for a nil interface,
     `var` with an arbitrary name, `call` with an arbitrary name and arbitrary argument count.
-  * `jsonToNode` — `nodeJSON.ToNode` (json_unmarshal.go:182-280): `.error .panic` where Go dereferences
-    a nil pointer, `.error .reject` where Go returns an error.
+  * `NodeJSON.toNode` — `nodeJSON.ToNode` (json_unmarshal.go): `.error .reject` where Go returns an error
+    (a nil record entry and a method-style call without receiver included); it has no panic branch left.
   * `toExpr?`   — `eval.ToEval` (convert.go): panics on an unknown variable and in the `default` arm.
   * `marshalSkel` — the panic skeleton of `astNodeToMarshalNode` + `marshalCedar` (cedar_marshal.go):
-    `default` arm, and `n.Args[0]` of a method-style extension call.
+    `default` arm; `n.Args[0]` of a method-style extension call is guarded by `len(n.Args) > 0`.
   * `jsonSkel`  — the panic skeleton of `nodeJSON.FromNode` (json_marshal.go): `default` arm.
   `Err.panic` is the only error these consumers can produce; everything else is a value.
 -/
@@ -81,7 +81,7 @@ def knownExt (fn : String) : Bool := (extLookup fn).isSome
 /-! ## The well-formedness contract -/
 
 mutual
-/-- no nil node; variables are one of the four names; a method-style call has a receiver -/
+/-- no nil node; variables are one of the four names -/
 def RawExpr.wfb : RawExpr → Bool
   | .nil => false
   | .lit _ => true
@@ -96,7 +96,7 @@ def RawExpr.wfb : RawExpr → Bool
   | .isIn e _ r => e.wfb && r.wfb
   | .set es => RawExpr.wfbList es
   | .record kes => RawExpr.wfbKVs kes
-  | .call fn args => (!isMethod fn || !args.isEmpty) && RawExpr.wfbList args
+  | .call _ args => RawExpr.wfbList args
 def RawExpr.wfbList : List RawExpr → Bool
   | [] => true
   | e :: es => e.wfb && RawExpr.wfbList es
@@ -107,6 +107,29 @@ end
 
 def RawExpr.WF (r : RawExpr) : Prop := r.wfb = true
 instance (r : RawExpr) : Decidable r.WF := by unfold RawExpr.WF; infer_instance
+
+mutual
+/-- every method-style extension call has a receiver (`Args[0]`).  No consumer panics without it any more
+    (`MarshalCedar` falls back to function style, cedar_marshal.go), but only such trees have a Cedar TEXT
+    form that parses back: both decoders guarantee it. -/
+def RawExpr.recvb : RawExpr → Bool
+  | .nil | .lit _ | .var _ => true
+  | .unop _ e | .access e _ | .has e _ | .like e _ | .is e _ => e.recvb
+  | .binop _ l r | .isIn l _ r => l.recvb && r.recvb
+  | .ite c t e => c.recvb && t.recvb && e.recvb
+  | .set es => RawExpr.recvbList es
+  | .record kes => RawExpr.recvbKVs kes
+  | .call fn args => (!isMethod fn || !args.isEmpty) && RawExpr.recvbList args
+def RawExpr.recvbList : List RawExpr → Bool
+  | [] => true
+  | e :: es => e.recvb && RawExpr.recvbList es
+def RawExpr.recvbKVs : List (String × RawExpr) → Bool
+  | [] => true
+  | (_, e) :: kes => e.recvb && RawExpr.recvbKVs kes
+end
+
+def RawExpr.HasReceivers (r : RawExpr) : Prop := r.recvb = true
+instance (r : RawExpr) : Decidable r.HasReceivers := by unfold RawExpr.HasReceivers; infer_instance
 
 /-! ## Consumers -/
 
@@ -157,7 +180,7 @@ def RawExpr.marshalSkel : RawExpr → Except Err Unit
   | .call fn args =>
     if isMethod fn then
       match args with
-      | [] => .error .panic                    -- cedar_marshal.go:203 `n.Args[0]`: index out of range
+      | [] => .ok ()                           -- cedar_marshal.go: `info.IsMethod && len(n.Args) > 0` is false: function style `f()`
       | recv :: rest => do recv.marshalSkel; RawExpr.marshalSkelList rest
     else RawExpr.marshalSkelList args
 def RawExpr.marshalSkelList : List RawExpr → Except Err Unit
@@ -193,11 +216,11 @@ def RawExpr.jsonSkelKVs : List (String × RawExpr) → Except Err Unit
   | (_, e) :: kes => do e.jsonSkel; RawExpr.jsonSkelKVs kes
 end
 
-/-! ## The JSON policy decoder (`nodeJSON.ToNode`) as it is, and repaired -/
+/-! ## The JSON policy decoder (`nodeJSON.ToNode`) -/
 
 mutual
 def NodeJSON.toNode : NodeJSON → Except DecErr RawExpr
-  | .nil => .error .panic                      -- json_unmarshal.go:149 `v.ToNode()` on a nil `*nodeJSON`
+  | .nil => .error .reject                     -- `recordJSON.ToNode`: `v == nil` ⇒ "missing value for key"
   | .zero => .error .reject                    -- `extensionJSON.ToNode`: "unexpected number of extensions in node: 0"
   | .lit v => .ok (.lit v)
   | .var n => if knownVar n then .ok (.var n) else .error .reject
@@ -212,62 +235,17 @@ def NodeJSON.toNode : NodeJSON → Except DecErr RawExpr
   | .set es => do let es' ← NodeJSON.toNodeList es; .ok (.set es')
   | .record kes => do let kes' ← NodeJSON.toNodeKVs kes; .ok (.record kes')
   | .call fn args =>
-    -- known name is checked BEFORE the arguments are converted; the argument count is never checked
-    if knownExt fn then do let as ← NodeJSON.toNodeList args; .ok (.call fn as) else .error .reject
+    -- the name is looked up, then a method without receiver is refused, BEFORE the arguments are converted;
+    -- no other argument count is checked (arity is an error value at evaluation time)
+    if knownExt fn && (!isMethod fn || !args.isEmpty) then
+      do let as ← NodeJSON.toNodeList args; .ok (.call fn as)
+    else .error .reject
 def NodeJSON.toNodeList : List NodeJSON → Except DecErr (List RawExpr)
   | [] => .ok []
   | e :: es => do let e' ← e.toNode; let es' ← NodeJSON.toNodeList es; .ok (e' :: es')
 def NodeJSON.toNodeKVs : List (String × NodeJSON) → Except DecErr (List (String × RawExpr))
   | [] => .ok []
   | (k, e) :: kes => do let e' ← e.toNode; let kes' ← NodeJSON.toNodeKVs kes; .ok ((k, e') :: kes')
-end
-
-mutual
-/-- the decoder with the two proposed one-line repairs: reject a nil record entry, and reject a
-    method-style extension call without a receiver -/
-def NodeJSON.toNodeFixed : NodeJSON → Except DecErr RawExpr
-  | .nil => .error .reject
-  | .zero => .error .reject
-  | .lit v => .ok (.lit v)
-  | .var n => if knownVar n then .ok (.var n) else .error .reject
-  | .unop op e => do let e' ← e.toNodeFixed; .ok (.unop op e')
-  | .binop op l r => do let l' ← l.toNodeFixed; let r' ← r.toNodeFixed; .ok (.binop op l' r')
-  | .ite c t e => do let c' ← c.toNodeFixed; let t' ← t.toNodeFixed; let e' ← e.toNodeFixed; .ok (.ite c' t' e')
-  | .access e a => do let e' ← e.toNodeFixed; .ok (.access e' a)
-  | .has e a => do let e' ← e.toNodeFixed; .ok (.has e' a)
-  | .like e p => do let e' ← e.toNodeFixed; .ok (.like e' p)
-  | .is e ty => do let e' ← e.toNodeFixed; .ok (.is e' ty)
-  | .isIn e ty r => do let e' ← e.toNodeFixed; let r' ← r.toNodeFixed; .ok (.isIn e' ty r')
-  | .set es => do let es' ← NodeJSON.toNodeFixedList es; .ok (.set es')
-  | .record kes => do let kes' ← NodeJSON.toNodeFixedKVs kes; .ok (.record kes')
-  | .call fn args =>
-    if knownExt fn && (!isMethod fn || !args.isEmpty) then
-      do let as ← NodeJSON.toNodeFixedList args; .ok (.call fn as)
-    else .error .reject
-def NodeJSON.toNodeFixedList : List NodeJSON → Except DecErr (List RawExpr)
-  | [] => .ok []
-  | e :: es => do let e' ← e.toNodeFixed; let es' ← NodeJSON.toNodeFixedList es; .ok (e' :: es')
-def NodeJSON.toNodeFixedKVs : List (String × NodeJSON) → Except DecErr (List (String × RawExpr))
-  | [] => .ok []
-  | (k, e) :: kes => do let e' ← e.toNodeFixed; let kes' ← NodeJSON.toNodeFixedKVs kes; .ok ((k, e') :: kes')
-end
-
-mutual
-/-- no nil `*nodeJSON` anywhere (i.e. no `null` record entry in the document) -/
-def NodeJSON.noNilb : NodeJSON → Bool
-  | .nil => false
-  | .zero | .lit _ | .var _ => true
-  | .unop _ e | .access e _ | .has e _ | .like e _ | .is e _ => e.noNilb
-  | .binop _ l r | .isIn l _ r => l.noNilb && r.noNilb
-  | .ite c t e => c.noNilb && t.noNilb && e.noNilb
-  | .set es | .call _ es => NodeJSON.noNilbList es
-  | .record kes => NodeJSON.noNilbKVs kes
-def NodeJSON.noNilbList : List NodeJSON → Bool
-  | [] => true
-  | e :: es => e.noNilb && NodeJSON.noNilbList es
-def NodeJSON.noNilbKVs : List (String × NodeJSON) → Bool
-  | [] => true
-  | (_, e) :: kes => e.noNilb && NodeJSON.noNilbKVs kes
 end
 
 /-! ## Policies and policy sets as decoded -/
@@ -294,11 +272,13 @@ def RawPolicy.toPolicy? (p : RawPolicy) : Except Err Policy := do
   .ok { effect := p.effect, annotations := p.annotations, principal := p.principal, action := p.action,
         resource := p.resource, conditions := cs, position := p.position }
 
-/-- `PolicySet.UnmarshalJSON`: `map[string]*Policy` — a `null` entry is a nil pointer that
-    `newPolicy` dereferences (policy_set.go:126) -/
-def newPolicy? : Option RawPolicy → Except Err Policy
-  | none => .error .panic
-  | some p => p.toPolicy?
+/-- `PolicySet.UnmarshalJSON` over the entries of `staticPolicies` (`map[string]*Policy`, `none` = a `null`
+    entry = nil pointer): a nil entry is refused with an error BEFORE `newPolicy` is reached (policy_set.go),
+    so `newPolicy` only ever receives a policy -/
+def setEntries? : List (String × Option RawPolicy) → Except DecErr (List (String × RawPolicy))
+  | [] => .ok []
+  | (_, none) :: _ => .error .reject
+  | (k, some p) :: rest => do let ps ← setEntries? rest; .ok ((k, p) :: ps)
 
 /-! ## Size and nesting depth (what the recursion of every consumer is bounded by) -/
 
